@@ -38,6 +38,29 @@ def _summary(path):
         if colr.version == 1:
             recs = colr.table.BaseGlyphList.BaseGlyphPaintRecord if colr.table.BaseGlyphList else []
             out["colr_base_glyphs"] = [r.BaseGlyph for r in recs]
+            # gradient geometry per base glyph: [paint format, coordinates...] in traversal order, plus whether any
+            # transforming paint sits in the tree (then the coordinates are not in font space)
+            grads = {}
+            for rec in recs:
+                found, transformed = [], [False]
+
+                def visit(paint):
+                    if paint.Format in (12, 13, 14, 15, 16, 17, 18, 19, 20, 21, 22, 23, 24, 25, 26, 27, 28, 29, 30, 31):
+                        transformed[0] = True
+                    if paint.Format in (4, 5):
+                        found.append([paint.Format, paint.x0, paint.y0, paint.x1, paint.y1, paint.x2, paint.y2])
+                    elif paint.Format in (6, 7):
+                        found.append([paint.Format, paint.x0, paint.y0, paint.r0, paint.x1, paint.y1, paint.r1])
+                    elif paint.Format in (8, 9):
+                        found.append([paint.Format, paint.centerX, paint.centerY])
+
+                try:
+                    rec.Paint.traverse(colr.table, visit)
+                except Exception:
+                    continue
+                if found:
+                    grads[rec.BaseGlyph] = {"coords": found, "transformed": transformed[0]}
+            out["colr_gradients"] = grads
         else:
             out["colr_base_glyphs"] = sorted(colr.ColorLayers.keys())
     def _png_size(data):
